@@ -315,7 +315,11 @@ func (c *cmafIngester) start(ctx context.Context) {
 	lastSegNrToSend := -1
 
 	if c.nrSegsToSend != nil {
-		lastSegNrToSend = nextSegNr + *c.nrSegsToSend
+		if *c.nrSegsToSend <= 0 {
+			c.report = append(c.report, "Duration shorter than one segment. Nothing to send")
+			return
+		}
+		lastSegNrToSend = nextSegNr + *c.nrSegsToSend - 1 // nrSegsToSend segments starting with nextSegNr
 	}
 	if lastSegNrToSend > 0 {
 		c.log.Debug("First and last segment number to send", "first", nextSegNr, "last", lastSegNrToSend)
